@@ -53,7 +53,9 @@ REQUIRED_THEOREMS = ['OpusProps.C08.rng_normalised', 'OpusProps.C08.tell_frac_bo
                      'OpusProps.C08.decode_encode_patched', 'OpusProps.C08.done_within_budget',
                      'OpusProps.C08.outside_untouched', 'OpusProps.C08.lockstep_symbols', 'OpusProps.C08.silk_flags_roundtrip', 'OpusProps.C08.laplace_pvq_roundtrip',
                      'OpusProps.C08.tell_contracts', 'OpusProps.C08.bytes_below_tell', 'OpusProps.C08.silk_syms_roundtrip_frame', 'OpusProps.C08.silk_syms_roundtrip', 'OpusProps.C08.opus_frame_lockstep_silk', 'OpusProps.C08.opus_frame_lockstep_silk_red',
-                     'OpusProps.C08.opus_frame_lockstep_silk_red_celt', 'OpusProps.C08.opus_frame_lockstep_hybrid']
+                     'OpusProps.C08.opus_frame_lockstep_silk_red_celt', 'OpusProps.C08.opus_frame_lockstep_hybrid',
+                     'OpusProps.C08.patched_equals_true_bits', 'OpusProps.C08.opus_frame_lockstep_hybrid_celt',
+                     'OpusProps.C08.opus_frame_lockstep_celt', 'OpusProps.C08.opus_frame_lockstep']
 UNPROVED = []
 RULE = ('op sequences of length 1..4000 over all nine operation kinds (ec_encode, ec_encode_bin, ec_enc_bit_logp, ec_enc_icdf, '
         'ec_enc_icdf16, ec_enc_uint, ec_enc_bits, ec_enc_patch_initial_bits, ec_enc_shrink) drawn from the seed by a '
@@ -100,12 +102,16 @@ NOT_COVERED = [
     'opus_encode payload bytes and final range); '
     'hybridFrame has none (the implementation side of "decoder final range = encoder final range" is C02\'s lock-step search and '
     'C03\'s ties); the CELT '
-    'symbol layer enters the _silk_red and _hybrid theorems only through the hypothesis CeltFrameRT; for the redundancy frame (a CELT '
-    'frame on a coder of its own) opus_frame_lockstep_silk_red_celt discharges it with C17\'s celt_frame_roundtrip (non-silent frames; a '
-    'silent redundancy frame — the `ff fe` packets — is not covered by that theorem); for the CELT part of a HYBRID frame it remains a '
-    'hypothesis: C17\'s `World` demands a LegalRun, which excludes the ec_enc_patch_initial_bits of the SILK prefix (C08 provides the '
-    'lock-step hand-over for patched prefixes — decode_flags_prefix_stream — but C17\'s frame theorem is not stated over it), '
-    'and the CELT encoder\'s operations on the shared coder are an input (`celtOps`); the decoder-side length '
+    'symbol layer enters the _silk_red and _hybrid theorems only through the hypothesis CeltFrameRT; C17\'s celt_frame_roundtrip '
+    'discharges it (non-silent CELT frames only; a silent redundancy frame — the `ff fe` packets — is not covered) for the redundancy frame '
+    'of a SILK-only packet (opus_frame_lockstep_silk_red_celt), for the CELT part of a hybrid frame WITHOUT redundancy '
+    '(opus_frame_lockstep_hybrid_celt: C17\'s `World` is a legal run, the patched SILK prefix is replaced by the patch-free run '
+    'with the same output, patched_equals_true_bits) and for CELT-only frames (opus_frame_lockstep_celt); opus_frame_lockstep is the '
+    'statement over these four frame kinds. For a hybrid frame WITH redundancy the CELT main part remains the hypothesis CeltFrameRT: '
+    'C03\'s decoder is initialised on main part ++ redundancy bytes and may have read into the latter before `storage -= redundancy_bytes`, '
+    'a state C17\'s World (initialised on the main part alone) does not start from. In the discharged theorems the CELT decisions are '
+    'inputs of C17\'s encoder model (its hypotheses are bundled as OwnCoderFrame / HybridCelt), nbits_total < 2^29 where a World is built; '
+    'in opus_frame_lockstep_hybrid the CELT encoder\'s operations on the shared coder are an input (`celtOps`); the decoder-side length '
     'tests (hgate, hsane) are hypotheses — the contracts C02\'s redundancy_mirror theorems derive from the encoder skeleton; '
     'the "SILK busted its target" fallback, DTX, DRED and the CELT-only mode are outside these theorems',
     'the non-table `#else` variant of ec_tell_frac and USE_SMALL_DIV_TABLE (not compiled on this target)',
@@ -139,7 +145,7 @@ QUICK_SEARCH, THOROUGH_SEARCH = 60000, 1000000
 QUICK_CODES, THOROUGH_CODES = 6000, 120000
 QUICK_SFRAME, THOROUGH_SFRAME = 3000, 60000
 QUICK_SPACKET, THOROUGH_SPACKET = 300, 5000     # streams of 3..14 packets
-QUICK_OFRAME, THOROUGH_OFRAME = 200, 3000       # streams of 3..12 packets
+QUICK_OFRAME, THOROUGH_OFRAME = 200, 2000       # streams of 3..12 packets
 SPACKET_WRAP = ['-Wl,' + ','.join('--wrap=' + f for f in ('silk_encode_indices', 'silk_encode_pulses', 'silk_stereo_encode_pred',
                                                             'silk_stereo_encode_mid_only', 'ec_enc_patch_initial_bits',
                                                             'silk_decode_indices', 'silk_decode_pulses', 'celt_encode_with_ec'))]
